@@ -69,7 +69,15 @@ impl Cfg {
         Cfg { package: "com.pkg.types".into(), ..Default::default() }
     }
     pub fn prefixed() -> Cfg {
-        Cfg { prefix: "P".into(), package: "org.other.mod".into(), ..Default::default() }
+        // the "every naming knob on" configuration
+        Cfg {
+            prefix: "P".into(),
+            package: "org.other.mod".into(),
+            go_uppercase_acronyms: vec!["ID".into(), "URL".into()],
+            swift_default_decorators: vec!["Sendable".into()],
+            swift_default_generic_constraints: vec!["Equatable".into()],
+            ..Default::default()
+        }
     }
 }
 
@@ -238,6 +246,7 @@ pub fn run(files: &[SrcFile], lang: Lang, cfg: &Cfg) -> Outcome {
         crate::crumb::note(lang.name(), &format!("prefix={:?} package={:?} multi_file={} target_os={:?} mappings={:?}", cfg.prefix, cfg.package, cfg.multi_file, cfg.target_os, cfg.type_mappings), &srcs);
     }
     let r = catch_unwind(AssertUnwindSafe(|| run_inner(files, lang, cfg)));
+    crate::crumb::done();
     match r {
         Ok(o) => o,
         Err(_) => Outcome::Panic(last_panic()),
@@ -292,6 +301,7 @@ pub fn parse_only(files: &[SrcFile], cfg: &Cfg) -> Result<BTreeMap<CrateName, Pa
         reconcile_aliases(&mut m);
         Ok(m)
     }));
+    crate::crumb::done();
     match r {
         Ok(x) => x,
         Err(_) => Err(Outcome::Panic(last_panic())),
